@@ -583,8 +583,8 @@ def check_C11(run):
         run.sample({"request": reqs[0], "implementation": impl[0][:300]})
         run.sample({"request": reqs[-1], "implementation": impl[-1][:300]})
     run.cov["explanation"] = ("proof on the model: rule-draw detection lemmas (a successor with clock 100 or an earlier occurrence in the look-back window returns "
-                              "DRAW_SCORE at every positive depth) and the root-level theorem C11_root_all_drawn (empty table, every successor rule-drawn, no key clash with "
-                              "the root: every reported iteration >= 2 scores -DRAW_SCORE and the answer is legal, every stop predicate and fuel); that the histories the UCI "
+                              "DRAW_SCORE at every positive depth) and the root-level theorems C11_root_all_drawn_any_table (EVERY bounded table, every history and depth limit, every successor "
+                              "rule-drawn: every reported iteration >= 2 scores -DRAW_SCORE and the answer is legal) and C11_root_all_drawn (empty table, no key clash with the root, every stop predicate); that the histories the UCI "
                               "layer builds make the successors rule-drawn, and the tie to the binary, rest on the runs above against the model and the constant")
 
 
@@ -736,7 +736,7 @@ def check_C12(run):
     run.sample({"request": reqs[0], "implementation": impl[0][:300]})
     run.cov["explanation"] = ("proof on the model (C12_mate_in_one_is_played): for every table with bounded scores, history and depth limit >= 1, a root with a mating "
                               "move, clock below 99, the mated position no repetition and no table entry under the mated position's key (none is ever written: "
-                              "mated nodes are not stored; only a key collision could) answers with a mating move and reports MATE_SCORE - 1 at every iteration; "
+                              "mated nodes are not stored; only a collision with that one key within the fuel's reach could; C12_closed_instance has no premise left) answers with a mating move and reports MATE_SCORE - 1 at every iteration; "
                               "a value strictly inside the window is honest (C12_value_inside_window_is_honest); the premise on the key is needed "
                               "(C12_misleading_entry_under_the_mated_key); tie: the runs above compare the real searches (fresh and pre-filled tables) with the model's")
 
